@@ -194,12 +194,12 @@ def pool_for(pid, tier, seed):
 
 
 BUDGET = {
-    # pid: (quick cases, quick maxlen, thorough cases, thorough maxlen)
-    'C01': (600, 30, 12000, 80), 'C02': (600, 30, 12000, 80), 'C03': (500, 25, 8000, 60), 'C04': (500, 25, 8000, 60),
-    'C05': (500, 25, 8000, 60), 'C06': (800, 30, 15000, 80), 'C07': (600, 30, 10000, 80), 'C08': (300, 14, 4000, 30),
-    'C09': (600, 24, 10000, 60), 'C10': (600, 25, 10000, 70), 'C11': (600, 25, 10000, 60), 'C12': (600, 22, 10000, 50),
-    'C13': (800, 24, 15000, 40), 'C14': (800, 24, 15000, 40), 'C16': (600, 30, 10000, 80), 'C18': (600, 18, 10000, 40),
-    'C17': (120, 12, 2500, 30),
+    # pid: (quick cases per configuration, quick max program length, thorough cases, thorough max length)
+    'C01': (5000, 30, 60000, 90), 'C02': (5000, 30, 60000, 80), 'C03': (4000, 28, 50000, 60), 'C04': (4000, 28, 50000, 60),
+    'C05': (4000, 28, 50000, 60), 'C06': (6000, 30, 80000, 80), 'C07': (4000, 30, 50000, 80), 'C08': (1500, 16, 20000, 30),
+    'C09': (4000, 24, 50000, 60), 'C10': (5000, 25, 60000, 70), 'C11': (4000, 25, 50000, 60), 'C12': (4000, 22, 50000, 50),
+    'C13': (5000, 24, 60000, 40), 'C14': (5000, 24, 60000, 40), 'C16': (4000, 30, 50000, 80), 'C18': (5000, 18, 60000, 40),
+    'C17': (150, 12, 2500, 30),
 }
 
 RULES = {
